@@ -102,6 +102,12 @@ def targeted(frame: str, r) -> str | None:
     code, verb = frame[37:41], frame[:2]
     ln = frame[42:45]
     pl = frame[46:]
+    if code == "1F09" and len(pl) == 6 and verb == " I" and frame[7:10] == "01:" and r.random() < 0.4:
+        # the same countdown as the controller's reply to a request (RP|00) or its after-binding write (W|F8), both documented shapes
+        cd = r.choice(["0000", "0000", "0001", "FFFF", "0730"])
+        if r.random() < 0.6:
+            return f"RP --- {frame[7:16]} 18:000730 --:------ 1F09 003 00{cd}"
+        return f" W --- {frame[7:16]} {r.choice(['04:111111', '22:111117', '34:111113'])} --:------ 1F09 003 F8{cd}"
     if code == "1F09" and len(pl) == 6:
         return f"{frame[:46]}{pl[:2]}{r.choice(['0000', '0001', 'FFFF', '0002', '7FFF'])}"
     if code in ZONE_CODES and len(pl) >= 2 and pl[:2] not in ("FC", "FA", "F9", "FF") and not (code == "000C" and r.random() < 0.5):
@@ -298,6 +304,8 @@ def generate(plan) -> None:
     k["max_zones"] = r.choice([1, 2, 4, 8, 12, 12, 12, 16])
     k["read_only"] = bool(sc == "views" and r.random() < 0.15)  # the 'disable_sending' configuration
     k["via_file"] = bool(sc == "views" and not k["read_only"] and r.random() < 0.15)  # the history is a packet log being replayed
+    # ... of which a leading part was saved state, given to start(cached_packets=) before the first line of the log is read
+    k["preload"] = r.choice([0.0, 0.0, 0.5, 1.0, 1.0]) if k["via_file"] else 0.0
     k["time_mode"] = r.choice(["fast", "fast", "log"])
     k["gap_cap"] = r.choice([1.0, 30.0, 400.0])
     if ff:
@@ -484,9 +492,9 @@ def schema_check(ctx, gwy, where: str) -> dict | None:
     return small
 
 
-async def reload_check(ctx, gwy, small: dict, where: str) -> None:
+async def reload_check(ctx, gwy, small: dict, where: str, want: dict | None = None) -> None:
     """Feed the schema back into a fresh Gateway: same controllers, zones, DHW, appliance control."""
-    want = topology(gwy.schema)
+    want = topology(gwy.schema) if want is None else want  # (a deferred check is given the topology of the instant `small` was read)
     g2 = None
     try:
         g2 = Gateway(None, input_file=io.TextIOWrapper(io.BytesIO(b"")), config={"max_zones": gwy.config.max_zones,
@@ -934,9 +942,18 @@ async def run_file(ctx) -> None:
     k = plan.knob
     t = clock.EPOCH
     lines = []
+    cached: dict[str, str] = {}
+    n_rx = sum(1 for o in plan.ops if o["op"] == "rx")
+    n_pre = int(n_rx * float(k("preload") or 0.0))
+    seen = 0
     for o in plan.ops:
         if o["op"] == "rx":
             t += _dt.timedelta(seconds=max(0.001, float(o.get("gap", 0.004))))
+            seen += 1
+            if seen <= n_pre:  # what an application saved on its last run: the I/RP packets, keyed by their timestamps
+                if o["f"][:2] in (" I", "RP"):
+                    cached[t.isoformat(timespec="microseconds")] = f"... {o['f']}"
+                continue
             lines.append(f"{t.isoformat(timespec='microseconds')} 045 {o['f']}")
     f = CountingLog(io.BytesIO(("\n".join(lines) + "\n").encode("latin-1")), encoding="latin-1")
     for name, n in sorted((k("hist_counts") or {}).items()):
@@ -948,11 +965,17 @@ async def run_file(ctx) -> None:
     # log, so they are performed from the message handler (synchronously, between two lines) as an application would
     due: list[tuple[int, int, dict]] = []
     target = 0
+    seen = 0
     for si, o in enumerate(plan.ops):
         if o["op"] == "rx":
-            target += 1
+            seen += 1
+            target += 1 if seen > n_pre else 0
         elif o["op"] in ("views", "state", "schema"):
             due.append((target, si, o))
+    if cached:
+        hub.count("saved_state_given_to_start", len(cached))
+        if not lines:
+            ctx.probe("views_before_the_first_log_line_(saved_state_only)")
     tasks: list = []
     broken = [False]
 
@@ -975,12 +998,12 @@ async def run_file(ctx) -> None:
             elif kind == "schema":
                 small = schema_check(ctx, gwy, where)
                 if small is not None and o.get("reload"):
-                    tasks.append(loop.create_task(reload_check(ctx, gwy, small, where)))
+                    tasks.append(loop.create_task(reload_check(ctx, gwy, small, where, topology(gwy.schema))))
 
     gwy.add_msg_handler(lambda msg: perform(f.count))
     stalled = False
     try:
-        await asyncio.wait_for(gwy.start(), 300)
+        await asyncio.wait_for(gwy.start(cached_packets=cached or None), 300)
         await asyncio.wait_for(gwy._protocol.wait_for_connection_lost(), 120)
     except Exception as err:  # noqa
         stalled = True
